@@ -42,6 +42,12 @@ func (k *Kernel) doProcStart(t *task, r *Req) {
 		return
 	}
 	p.started = true
+	if ee, ok := k.cfg.Tools.(interface{ ExitsEarly(argv []string) bool }); ok && !p.closed && ee.ExitsEarly(inv.Argv) {
+		// a tool (a wrapper script, a partial reader) that answers from what is in the pipe when it
+		// starts and exits without waiting for the end of its input: later writes meet a closed pipe
+		p.closed = true
+		k.probe("tool_exits_before_reading_all_input")
+	}
 	k.running++
 	if k.running > k.res.MaxProcs {
 		k.res.MaxProcs = k.running
